@@ -81,11 +81,17 @@ enum Scale {
 }
 
 fn gen_scale(w: &World) -> Scale {
-    match w.draw(600) {
-        0..=579 => Scale::Small,
-        580..=591 => Scale::Large,
-        592..=597 => Scale::Many,
-        _ => Scale::Huge,
+    // quick: 12/600 large, 6/600 many, 2/600 huge; thorough: 40, 30, 12 of 600
+    let (l, m, h) = if crate::world::thorough() { (40, 30, 12) } else { (12, 6, 2) };
+    let d = w.draw(600);
+    if d < 600 - l - m - h {
+        Scale::Small
+    } else if d < 600 - m - h {
+        Scale::Large
+    } else if d < 600 - h {
+        Scale::Many
+    } else {
+        Scale::Huge
     }
 }
 
@@ -171,6 +177,8 @@ struct WriterCfg {
     wrap: Option<usize>,
     api: u8,          // 0 write(), 1 write_record(), 2 Display
     flush: bool,
+    /// explicit flush() after every record
+    flush_each: bool,
 }
 
 const WCAPS: [usize; 14] = [8192, 0, 1, 2, 7, 64, 3, 16, 100, 1000, 4096, 32768, 65536, 8193];
@@ -199,12 +207,14 @@ fn gen_writer_cfg(w: &World, kind: Kind, recs: &[Rec], magic: Option<usize>) -> 
     };
     let api = w.draw(3) as u8;
     let flush = w.chance(1, 2);
+    let flush_each = w.chance(1, 5);
     WriterCfg {
         ctor,
         cap,
         wrap,
         api,
         flush,
+        flush_each,
     }
 }
 
@@ -236,6 +246,9 @@ fn produce<S: Write>(kind: Kind, cfg: &WriterCfg, recs: &[Rec], sink: S) -> io::
                     let rec = fasta::Record::with_attrs(&r.id, r.desc.as_deref(), &r.seq);
                     wr.write_record(&rec)?;
                 }
+                if cfg.flush_each {
+                    wr.flush()?;
+                }
             }
             if cfg.flush {
                 wr.flush()?;
@@ -265,6 +278,9 @@ fn produce<S: Write>(kind: Kind, cfg: &WriterCfg, recs: &[Rec], sink: S) -> io::
                 } else {
                     let rec = fastq::Record::with_attrs(&r.id, r.desc.as_deref(), &r.seq, &r.qual);
                     wr.write_record(&rec)?;
+                }
+                if cfg.flush_each {
+                    wr.flush()?;
                 }
             }
             if cfg.flush {
@@ -564,86 +580,135 @@ fn is_eintr_fq(e: &fastq::Error) -> bool {
     }
 }
 
-fn consume_fasta<B: BufRead>(reader: fasta::Reader<B>, iter_api: bool, max_items: usize, p: &mut Parsed) {
-    if iter_api {
-        for item in reader.records() {
-            p.items += 1;
-            match item {
-                Ok(r) => p.recs.push(from_fa(&r)),
-                Err(e) => p.errs.push((p.items - 1, is_eintr_io(&e), e.to_string())),
+/// How the consumer drives a reader: the iterator, a `read(&mut record)` loop reusing one Record,
+/// or `k` records through `read()` and the rest through `records()` (the look-ahead state the
+/// reader carries between records must survive the switch).
+#[derive(Clone, Copy, Debug, PartialEq, Eq)]
+pub enum Api {
+    Iter,
+    ReadLoop,
+    Mixed(u8),
+}
+
+fn consume_fasta<B: BufRead>(reader: fasta::Reader<B>, api: Api, max_items: usize, p: &mut Parsed) {
+    let mut reader = reader;
+    let k = match api {
+        Api::Iter => 0,
+        Api::ReadLoop => usize::MAX,
+        Api::Mixed(k) => k as usize,
+    };
+    let mut rec = fasta::Record::new();
+    let mut n = 0usize;
+    while n < k {
+        n += 1;
+        p.items += 1;
+        match reader.read(&mut rec) {
+            Ok(()) if rec.is_empty() => {
+                p.items -= 1;
+                p.ended = true;
+                // poking a finished reader again must be harmless
+                for _ in 0..2 {
+                    let _ = reader.read(&mut rec);
+                }
+                return;
             }
-            if p.items > max_items {
+            Ok(()) => p.recs.push(from_fa(&rec)),
+            Err(e) => {
+                // a read() loop stops at the first error, as the module documentation does
+                p.errs.push((p.items - 1, is_eintr_io(&e), e.to_string()));
+                p.ended = true;
+                for _ in 0..2 {
+                    let _ = reader.read(&mut rec);
+                }
                 return;
             }
         }
-        p.ended = true;
-    } else {
-        let mut reader = reader;
-        let mut rec = fasta::Record::new();
-        loop {
-            p.items += 1;
-            match reader.read(&mut rec) {
-                Ok(()) if rec.is_empty() => {
-                    p.items -= 1;
-                    p.ended = true;
+        if p.items > max_items {
+            return;
+        }
+    }
+    let mut it = reader.records();
+    loop {
+        match it.next() {
+            None => break,
+            Some(item) => {
+                p.items += 1;
+                match item {
+                    Ok(r) => p.recs.push(from_fa(&r)),
+                    Err(e) => p.errs.push((p.items - 1, is_eintr_io(&e), e.to_string())),
+                }
+                if p.items > max_items {
                     return;
                 }
-                Ok(()) => p.recs.push(from_fa(&rec)),
-                Err(e) => {
-                    // a read() loop stops at the first error, as the module documentation does
-                    p.errs.push((p.items - 1, is_eintr_io(&e), e.to_string()));
-                    p.ended = true;
-                    return;
-                }
-            }
-            if p.items > max_items {
-                return;
             }
         }
     }
+    p.ended = true;
+    for _ in 0..2 {
+        let _ = it.next();
+    }
 }
 
-fn consume_fastq<B: BufRead>(reader: fastq::Reader<B>, iter_api: bool, max_items: usize, p: &mut Parsed) {
-    if iter_api {
-        for item in reader.records() {
-            p.items += 1;
-            match item {
-                Ok(r) => {
-                    p.checks.push(r.check().is_ok());
-                    p.recs.push(from_fq(&r));
+fn consume_fastq<B: BufRead>(reader: fastq::Reader<B>, api: Api, max_items: usize, p: &mut Parsed) {
+    let mut reader = reader;
+    let k = match api {
+        Api::Iter => 0,
+        Api::ReadLoop => usize::MAX,
+        Api::Mixed(k) => k as usize,
+    };
+    let mut rec = fastq::Record::new();
+    let mut n = 0usize;
+    while n < k {
+        n += 1;
+        p.items += 1;
+        match reader.read(&mut rec) {
+            Ok(()) if rec.is_empty() => {
+                p.items -= 1;
+                p.ended = true;
+                for _ in 0..2 {
+                    let _ = reader.read(&mut rec);
                 }
-                Err(e) => p.errs.push((p.items - 1, is_eintr_fq(&e), e.to_string())),
+                return;
             }
-            if p.items > max_items {
+            Ok(()) => {
+                p.checks.push(rec.check().is_ok());
+                p.recs.push(from_fq(&rec));
+            }
+            Err(e) => {
+                p.errs.push((p.items - 1, is_eintr_fq(&e), e.to_string()));
+                p.ended = true;
+                for _ in 0..2 {
+                    let _ = reader.read(&mut rec);
+                }
                 return;
             }
         }
-        p.ended = true;
-    } else {
-        let mut reader = reader;
-        let mut rec = fastq::Record::new();
-        loop {
-            p.items += 1;
-            match reader.read(&mut rec) {
-                Ok(()) if rec.is_empty() => {
-                    p.items -= 1;
-                    p.ended = true;
+        if p.items > max_items {
+            return;
+        }
+    }
+    let mut it = reader.records();
+    loop {
+        match it.next() {
+            None => break,
+            Some(item) => {
+                p.items += 1;
+                match item {
+                    Ok(r) => {
+                        p.checks.push(r.check().is_ok());
+                        p.recs.push(from_fq(&r));
+                    }
+                    Err(e) => p.errs.push((p.items - 1, is_eintr_fq(&e), e.to_string())),
+                }
+                if p.items > max_items {
                     return;
                 }
-                Ok(()) => {
-                    p.checks.push(rec.check().is_ok());
-                    p.recs.push(from_fq(&rec));
-                }
-                Err(e) => {
-                    p.errs.push((p.items - 1, is_eintr_fq(&e), e.to_string()));
-                    p.ended = true;
-                    return;
-                }
-            }
-            if p.items > max_items {
-                return;
             }
         }
+    }
+    p.ended = true;
+    for _ in 0..2 {
+        let _ = it.next();
     }
 }
 
@@ -688,6 +753,9 @@ fn consume_either<B: BufRead>(mut it: fastx::EitherRecords<B>, ask_kind: bool, m
         }
     }
     p.ended = true;
+    for _ in 0..2 {
+        let _ = it.next();
+    }
 }
 
 const RCAPS: [usize; 16] = [8192, 1, 2, 3, 5, 16, 64, 512, 7, 100, 1000, 4096, 8191, 8193, 32768, 65536];
@@ -699,7 +767,7 @@ struct ReaderCfg {
     /// 6 get_kind(SimRead) then Reader::with_capacity, 7 get_kind_seek(SimSeekRead) then Reader::with_capacity
     ctor: u8,
     cap: usize,
-    iter_api: bool,
+    api: Api,
     ask_kind: bool,
     io: IoCfg,
 }
@@ -714,7 +782,11 @@ fn gen_reader_cfg(w: &World, allow_sniff: bool, allow_eintr: bool, magic: Option
             _ => *w.pick(&RCAPS),
         }
     };
-    let iter_api = !w.chance(1, 3);
+    let api = match w.draw(6) {
+        0..=2 => Api::Iter,
+        3..=4 => Api::ReadLoop,
+        _ => Api::Mixed(1 + w.draw(3) as u8),
+    };
     let ask_kind = w.chance(1, 2);
     let mut io = IoCfg::draw(w, allow_eintr);
     if let Some(m) = magic {
@@ -725,7 +797,7 @@ fn gen_reader_cfg(w: &World, allow_sniff: bool, allow_eintr: bool, magic: Option
     ReaderCfg {
         ctor,
         cap,
-        iter_api,
+        api,
         ask_kind,
         io,
     }
@@ -744,7 +816,7 @@ impl ReaderCfg {
             "get_kind_seek(SimSeekRead) → Reader::with_capacity(cap, file)",
         ];
         json!({"ctor": names[self.ctor as usize], "cap": self.cap,
-               "api": if self.iter_api {"records()"} else {"read(&mut record) loop"},
+               "api": format!("{:?}", self.api),
                "ask_kind_first": self.ask_kind, "io": self.io.json()})
     }
 }
@@ -764,19 +836,19 @@ fn consumer_phase(w: &W, kind: Kind, data: &Rc<Vec<u8>>, rc: &ReaderCfg) -> (Par
             let src = SimRead::new(w, data.clone(), rc.io, "src");
             cuts = src.cuts.clone();
             match (kind, rc.ctor) {
-                (Kind::Fasta, 0) => consume_fasta(fasta::Reader::new(src), rc.iter_api, max_items, &mut p),
-                (Kind::Fasta, 1) => consume_fasta(fasta::Reader::with_capacity(rc.cap, src), rc.iter_api, max_items, &mut p),
+                (Kind::Fasta, 0) => consume_fasta(fasta::Reader::new(src), rc.api, max_items, &mut p),
+                (Kind::Fasta, 1) => consume_fasta(fasta::Reader::with_capacity(rc.cap, src), rc.api, max_items, &mut p),
                 (Kind::Fasta, _) => consume_fasta(
                     fasta::Reader::from_bufread(BufReader::with_capacity(rc.cap, src)),
-                    rc.iter_api,
+                    rc.api,
                     max_items,
                     &mut p,
                 ),
-                (Kind::Fastq, 0) => consume_fastq(fastq::Reader::new(src), rc.iter_api, max_items, &mut p),
-                (Kind::Fastq, 1) => consume_fastq(fastq::Reader::with_capacity(rc.cap, src), rc.iter_api, max_items, &mut p),
+                (Kind::Fastq, 0) => consume_fastq(fastq::Reader::new(src), rc.api, max_items, &mut p),
+                (Kind::Fastq, 1) => consume_fastq(fastq::Reader::with_capacity(rc.cap, src), rc.api, max_items, &mut p),
                 (Kind::Fastq, _) => consume_fastq(
                     fastq::Reader::from_bufread(BufReader::with_capacity(rc.cap, src)),
-                    rc.iter_api,
+                    rc.api,
                     max_items,
                     &mut p,
                 ),
@@ -786,8 +858,8 @@ fn consumer_phase(w: &W, kind: Kind, data: &Rc<Vec<u8>>, rc: &ReaderCfg) -> (Par
             let src = SimBufRead::new(w, data.clone(), rc.io, "src");
             cuts = src.cuts.clone();
             match kind {
-                Kind::Fasta => consume_fasta(fasta::Reader::from_bufread(src), rc.iter_api, max_items, &mut p),
-                Kind::Fastq => consume_fastq(fastq::Reader::from_bufread(src), rc.iter_api, max_items, &mut p),
+                Kind::Fasta => consume_fasta(fasta::Reader::from_bufread(src), rc.api, max_items, &mut p),
+                Kind::Fastq => consume_fastq(fastq::Reader::from_bufread(src), rc.api, max_items, &mut p),
             }
         }
         4 => {
@@ -819,8 +891,8 @@ fn consumer_phase(w: &W, kind: Kind, data: &Rc<Vec<u8>>, rc: &ReaderCfg) -> (Par
                     };
                     p.kind_reported = Some(Ok(k));
                     match k {
-                        Kind::Fasta => consume_fasta(fasta::Reader::with_capacity(rc.cap, chain), rc.iter_api, max_items, &mut p),
-                        Kind::Fastq => consume_fastq(fastq::Reader::with_capacity(rc.cap, chain), rc.iter_api, max_items, &mut p),
+                        Kind::Fasta => consume_fasta(fasta::Reader::with_capacity(rc.cap, chain), rc.api, max_items, &mut p),
+                        Kind::Fastq => consume_fastq(fastq::Reader::with_capacity(rc.cap, chain), rc.api, max_items, &mut p),
                     }
                 }
                 Err(e) => {
@@ -831,8 +903,23 @@ fn consumer_phase(w: &W, kind: Kind, data: &Rc<Vec<u8>>, rc: &ReaderCfg) -> (Par
             }
         }
         _ => {
-            let mut src = SimSeekRead::new(w, data.clone(), rc.io, "src");
-            cuts = src.cuts.clone();
+            // the stream may be positioned behind some unrelated prefix: get_kind_seek must look at
+            // the current position and leave the stream there
+            let prefix_len = if w.chance(1, 3) { 1 + w.draw(5) as usize } else { 0 };
+            let mut src = if prefix_len > 0 {
+                let mut d: Vec<u8> = (0..prefix_len).map(|_| *w.pick(b"#x>@\n ")).collect();
+                d.extend_from_slice(data);
+                let mut s = SimSeekRead::new(w, Rc::new(d), rc.io, "src");
+                use std::io::Seek;
+                s.seek(io::SeekFrom::Start(prefix_len as u64)).expect("sim: plain seek");
+                w.probe("sniff_seek_stream_not_at_zero");
+                cuts = Rc::new(RefCell::new(Vec::new()));
+                s
+            } else {
+                let s = SimSeekRead::new(w, data.clone(), rc.io, "src");
+                cuts = s.cuts.clone();
+                s
+            };
             w.probe("sniffer_used");
             match fastx::get_kind_seek(&mut src) {
                 Ok(k) => {
@@ -842,8 +929,8 @@ fn consumer_phase(w: &W, kind: Kind, data: &Rc<Vec<u8>>, rc: &ReaderCfg) -> (Par
                     };
                     p.kind_reported = Some(Ok(k));
                     match k {
-                        Kind::Fasta => consume_fasta(fasta::Reader::with_capacity(rc.cap, src), rc.iter_api, max_items, &mut p),
-                        Kind::Fastq => consume_fastq(fastq::Reader::with_capacity(rc.cap, src), rc.iter_api, max_items, &mut p),
+                        Kind::Fasta => consume_fasta(fasta::Reader::with_capacity(rc.cap, src), rc.api, max_items, &mut p),
+                        Kind::Fastq => consume_fastq(fastq::Reader::with_capacity(rc.cap, src), rc.api, max_items, &mut p),
                     }
                 }
                 Err(e) => {
@@ -968,7 +1055,7 @@ fn roundtrip(w: &W, kind: Kind, with_cut: bool) -> Verdict {
         w.note(
             "writer",
             json!({"ctor": (["new","with_capacity","from_bufwriter"][wcfg.ctor as usize]), "cap": wcfg.cap, "linewrap": wcfg.wrap,
-                   "api": (["write","write_record","Display"][wcfg.api as usize]), "explicit_flush": wcfg.flush}),
+                   "api": (["write","write_record","Display"][wcfg.api as usize]), "explicit_flush": wcfg.flush, "flush_after_each_record": wcfg.flush_each}),
         );
     }
     // swarm: which fault kinds are enabled this run
@@ -1150,10 +1237,12 @@ fn judge_cut(w: &World, kind: Kind, recs: &[Rec], boundaries: &[usize], c: usize
 /// Every cut offset of one small file, each with a freshly drawn reader and read schedule.
 fn cut_sweep(w: &W, kind: Kind) -> Verdict {
     let mut recs = gen_records(w, kind, Scale::Small, None);
-    recs.truncate(3);
-    for r in recs.iter_mut() {
-        r.seq.truncate(12);
-        r.qual.truncate(12);
+    if !crate::world::thorough() {
+        recs.truncate(3);
+        for r in recs.iter_mut() {
+            r.seq.truncate(12);
+            r.qual.truncate(12);
+        }
     }
     if recs.is_empty() {
         return Ok(());
@@ -1316,7 +1405,7 @@ pub fn property() -> Property {
             "header_split_across_reads", "cr_lf_in_different_reads", "utf8_char_split_across_reads", "first_byte_delivered_alone",
             "cut_at_record_boundary", "cut_inside_header", "cut_inside_plus_line", "cut_inside_quality", "cut_inside_sequence", "cut_inside_terminator",
             "quality_starts_with_at", "quality_starts_with_plus", "writer_buffer_smaller_than_field", "relayout_multiline_crlf",
-            "sniffer_used", "magic_size_run", "wrap_equals_magic_and_sequence_reaches_it", "large_regime", "many_records_regime", "huge_regime", "cut_sweep", "garbage_invalid_utf8", "garbage_rejected_with_error",
+            "sniffer_used", "sniff_seek_stream_not_at_zero", "magic_size_run", "wrap_equals_magic_and_sequence_reaches_it", "large_regime", "many_records_regime", "huge_regime", "cut_sweep", "garbage_invalid_utf8", "garbage_rejected_with_error",
         ],
         quick_runs: 400_000,
         thorough_runs: 30_000_000,
